@@ -17,7 +17,7 @@ def kernel_globals(mod):
     I = Interp(mod, {}, {'log_access': False})
     run_global_ctors(I)
     for g in list(mod._globtxt):
-        if g.startswith('@_ZL') or g.startswith('@_ZN10Goldilocks'):
+        if g.startswith('@_ZL') or g.startswith('@_ZN10Goldilocks') or g.startswith('@_ZN11gl64_device'):
             try:
                 gl = mod.glob(g)
                 from .ir import sizeof
@@ -27,7 +27,7 @@ def kernel_globals(mod):
                 pass
     out = {}
     for (reg, off), (v, sz) in I.mem.items():
-        if reg.kind == 'global' and isinstance(v, int) and isinstance(off, int) and sz == 8:
+        if reg.kind == 'global' and isinstance(v, int) and isinstance(off, int) and sz in (4, 8):
             out[(reg.name, off)] = v
     _gc[k] = out
     return out
@@ -210,26 +210,56 @@ def prove(mod, name, ins, outs, spec, W=1, lanes=None, exact=False, alias=None, 
     return res
 
 
-def prove_cells(mod, name, nargs, in_cells, out_cells, specs, alias=None, seed=0, budget=6000, exact=False):
+def range_refine(cs, o, top, seed):
+    """is `o > top` possible in the cell?  -> (top if shown impossible else None, witness or None)"""
+    small = sorted(v for v, (l_, h_) in cs.box.items() if 0 < h_ - l_ <= 2)
+    if len(small) > 14:
+        small = []
+    possible = False
+    for combo in itertools.product(*[range(cs.box[v][0], cs.box[v][1] + 1) for v in small]):
+        cc2 = cs.copy()
+        for v, x in zip(small, combo):
+            cc2.box[v] = (x, x)
+        cc2.cons.append((o.p - (top + 1), '>=0'))
+        if not cc2.feasible() or cc2.fm_infeasible():
+            continue
+        possible = True
+        break
+    if not possible:
+        return top, None
+    wit = witness_search(cs, Poly(), seed, pred=lambda a: o.p.ev(a) > top)
+    return None, wit
+
+
+def prove_cells(mod, name, nargs, in_cells, out_cells, specs, alias=None, seed=0, budget=6000, exact=False, dialect='x86', value_args=None, post=None, use_int_summaries=True, extra_summaries=None):
     """kernel-mode proof for routines whose operands are small arrays of Elements.
     nargs: number of pointer arguments; in_cells: [(arg index, byte offset, symbol, typestate)];
     out_cells: [(arg index, byte offset)]; specs: [function(symbol polys dict) -> Poly] per output cell;
     alias: {arg index: arg index} arguments that are the same object"""
     gc = kernel_globals(mod)
     res = Outcome()
-    pres = [BOXES[ts] for (_, _, _, ts) in in_cells]
+    pres = [BOXES[ts] if ts != 'u32' else [None] for (_, _, _, ts) in in_cells]
     for boxes in itertools.product(*pres):
         viol = []
-        S = int_summaries(mod, viol)
+        S = int_summaries(mod, viol) if use_int_summaries else {}
+        S.update(extra_summaries or {})
         K = KInterp(mod, lane=0, summaries=S, globals_=gc, budget=budget)
+        K.asm_dialect = dialect
         c = Case()
         st = St(c, {}, {})
         ptrs = []
         for i in range(nargs):
             j = alias.get(i, i) if alias else i
             ptrs.append(KPtr('arg%d' % j, 0))
+        for i, v in (value_args or {}).items():
+            ptrs[i] = v(c) if callable(v) else v
         A = {}
         for (ai, off, nm, ts), bx in zip(in_cells, boxes):
+            if ts == 'u32':
+                c.box[nm] = (0, M32 - 1)
+                A[nm] = Poly.var(nm)
+                st.mem[KPtr(ptrs[ai].obj, off)] = KV(Poly.var(nm), 0, M32 - 1, w=32)
+                continue
             v = sym64(c, nm, bx, 0)
             A[nm] = Poly.var(nm + 'h') * M32 + Poly.var(nm + 'l')
             st.mem[KPtr(ptrs[ai].obj, off)] = v
@@ -246,7 +276,13 @@ def prove_cells(mod, name, nargs, in_cells, out_cells, specs, alias=None, seed=0
             res.cells += 1
             try:
                 for (ai, off), sp in zip(out_cells, specs):
-                    o = st2.mem.get(KPtr(ptrs[ai].obj, off))
+                    if ai == 'ret':
+                        o = ret
+                        ai = -1
+                        if o is None:
+                            raise Undecided('the routine returns no value')
+                    else:
+                        o = st2.mem.get(KPtr(ptrs[ai].obj, off))
                     if o is None:
                         raise Undecided('output cell arg%d+%d is never written' % (ai, off))
                     o = K.tokv(cs, K.resolve(cs, o))
@@ -255,13 +291,48 @@ def prove_cells(mod, name, nargs, in_cells, out_cells, specs, alias=None, seed=0
                     lo, hi = cs.bound(o.p, o.lo, o.hi)
                     res.max_out = max(res.max_out, hi)
                     problems = []
+                    if z.d and all((cs.box[v][1] - cs.box[v][0]) <= 2 for v in z.vars()) and len(z.vars()) <= 12:
+                        # the residual only involves carry / borrow bits that the code drops or folds: enumerate their values and
+                        # keep the combinations the cell's constraints allow
+                        bad_combo = None
+                        small = sorted(v for v, (l_, h_) in cs.box.items() if 0 < h_ - l_ <= 2)
+                        vs = sorted(z.vars()) + ([v for v in small if v not in z.vars()] if len(small) <= 14 else [])
+                        for combo in itertools.product(*[range(cs.box[v][0], cs.box[v][1] + 1) for v in vs]):
+                            val = z.subst({v: Poly.const(x) for v, x in zip(vs, combo) if v in z.vars()})
+                            val = val if exact else val.modp()
+                            if not val.d:
+                                continue
+                            cc2 = cs.copy()
+                            for v, x in zip(vs, combo):
+                                cc2.box[v] = (x, x)
+                            if cc2.feasible() and not cc2.fm_infeasible():
+                                bad_combo = (dict(zip(vs, combo)), cc2)
+                                break
+                            res.cells += 1
+                        if bad_combo is None:
+                            z = Poly()
+                        else:
+                            cs = bad_combo[1]
+                            z = final_poly(cs, diff, exact)
                     if z.d:
                         problems.append('cell arg%d+%d differs from the specification by %s' % (ai, off, str(z)[:120]))
                     if o.sh:
                         problems.append('cell arg%d+%d holds a shifted value' % (ai, off))
+                    kind = 'value' if problems else None
+                    rwit = None
+                    if post is not None and hi > TS_HI[post] and not z.d:
+                        # the interval of the whole cell is too coarse when carry bits are still open: decide the claim
+                        # `output > bound` per carry combination by polyhedral emptiness
+                        hi2, rwit = range_refine(cs, o, TS_HI[post], seed)
+                        res.cells += 1
+                        if hi2 is not None:
+                            hi = hi2
+                    if post is not None and hi > TS_HI[post]:
+                        problems.append('cell arg%d+%d may reach %d, expected %s' % (ai, off, hi, post))
+                        kind = kind or 'range'
                     if problems:
-                        wit = witness_search(cs, final_poly(cs, diff, True) if cs.subst else diff, seed, exact=exact) if z.d else None
-                        res.failures.append(dict(lane=0, box={}, detail='; '.join(problems), witness=wit, constraints=[]))
+                        wit = witness_search(cs, final_poly(cs, diff, True) if cs.subst else diff, seed, exact=exact) if z.d else rwit
+                        res.failures.append(dict(lane=0, box={}, detail='; '.join(problems), witness=wit, constraints=[], kind=kind))
                         break
             except (Undecided, KeyError) as e:
                 res.undecided.append(str(e)[:200])
